@@ -131,7 +131,12 @@ class CellCtx:
             self.replay_outcome = (ok, detail)
             return "replayed"
         t0 = time.time()
-        res = smt.solve(ob, timeout_s=self.timeout_s)
+        confirm = None
+        if replay is not None:
+            def confirm(vals, bvals):
+                ok, _ = replay(vals, bvals)
+                return bool(ok)
+        res = smt.solve(ob, timeout_s=self.timeout_s, confirm=confirm)
         rec = {"name": name, "canary": canary, "status": res.status, "solver_s": round(res.solver_s, 4),
                "n_pairs": len(ob.pairs), "detail": res.detail, "key": key or name}
         if note:
